@@ -2006,15 +2006,47 @@ impl<'a> CompileState<'a> {
                     identifier, fields, ..
                 } = struct_ast.as_ref();
 
+                // A constant struct is checked like a struct literal in a function body: no
+                // duplicate field, every field of the definition given, only fields of the
+                // definition, every value of the declared type. Otherwise the mistake would
+                // only be noticed when the field is read at run time.
+                if let Some((ident1, ident2)) = find_duplicate(fields, |(ident, _)| ident) {
+                    return Err(self.err(AlreadyDefined::new(ident1.clone(), ident2.clone())));
+                }
+                if let Some(missing) = struct_def
+                    .iter()
+                    .find(|d| !fields.iter().any(|(name, _)| name.inner == d.identifier.inner))
+                {
+                    let note = format!(
+                        "field `{}` of `Struct {}` is missing",
+                        missing.identifier.inner, identifier
+                    );
+                    return Err(self.err(NotDefined(note, identifier.span)));
+                }
+                let mut value_fields = BTreeMap::new();
+                for (name, expr) in fields {
+                    let Some(def_field) = struct_def
+                        .iter()
+                        .find(|d| d.identifier.inner == name.inner)
+                    else {
+                        let note = format!("field `{}` not found in `Struct {}`", name.inner, identifier);
+                        return Err(self.err(NotDefined(note, name.span)));
+                    };
+                    let value = self.expression_value(expr)?;
+                    let vtype = value.vtype(expr.span);
+                    if !vtype.fits_type(&def_field.field_type) {
+                        return Err(self.err(InvalidType::new(
+                            def_field.field_type.to_string(),
+                            Some(def_field.span()),
+                            vtype.to_string(),
+                            expr.span,
+                        )));
+                    }
+                    value_fields.insert(name.inner.clone(), value);
+                }
                 Ok(ConstValue::Struct(ConstStruct {
                     name: identifier.inner.clone(),
-                    fields: {
-                        let mut value_fields = BTreeMap::new();
-                        for (value, expr) in fields {
-                            value_fields.insert(value.inner.clone(), self.expression_value(expr)?);
-                        }
-                        value_fields
-                    },
+                    fields: value_fields,
                 }))
             }
             ExprKind::EnumReference(e) => {
